@@ -55,17 +55,26 @@ def make_args_unique(a: ast.Lambda) -> ast.Lambda:
                 mapping = [(a.arg, arg_name()) for a in node.args.args]
                 self._seen_lambda = True
 
+            # Default values are evaluated where the lambda is written: its own parameters
+            # do not hide anything there.
+            defaults = [self.visit(d) for d in node.args.defaults]
+            kw_defaults = [
+                self.visit(d) if d is not None else None for d in node.args.kw_defaults
+            ]
+
             for old, new in mapping:
                 self._arg_stack.append((old, new))
 
-            r = self.generic_visit(node)
-            assert isinstance(r, ast.Lambda)
+            body = self.visit(node.body)
 
-            r.args.args = [ast.arg(arg=new, annotation=None) for old, new in mapping]
             for arg in node.args.args:
                 self._arg_stack.pop()
 
-            return r
+            new_args = copy.copy(node.args)
+            new_args.args = [ast.arg(arg=new, annotation=None) for old, new in mapping]
+            new_args.defaults = defaults
+            new_args.kw_defaults = kw_defaults
+            return ast.Lambda(new_args, body)
 
         def visit_Name(self, node: ast.Name) -> ast.Name:
             for n in reversed(self._arg_stack):
@@ -504,6 +513,11 @@ class simplify_chained_calls(FuncADLNodeTransformer):
         }
         new_args = copy.copy(node.args)
         new_args.args = []
+        # Default values belong to the scope the lambda is written in, not to its body.
+        new_args.defaults = [self.visit(d) for d in node.args.defaults]
+        new_args.kw_defaults = [
+            self.visit(d) if d is not None else None for d in node.args.kw_defaults
+        ]
         with stack_frame(self._arg_stack):
             for a in node.args.args:
                 n = arg_name() if a.arg in substituted_names else a.arg
